@@ -681,9 +681,10 @@ def pagesScanLoop (fv : Nat) : Nat → List FrameRead.Bytes → QIter → List S
   | 0, fut, q, acc => some (acc, q, fut)
   | fuel + 1, fut, q, acc =>
     let dests := List.replicate (widthsOf q.it.md.columns) true
-    match pscan fv true dests fut q false with
-    | .row q' fut' calls sw => pagesScanLoop fv fuel fut' q' (acc ++ [(if sw then "PG(" ++ dQView q' ++ ")>" else "") ++ dCalls calls])
-    | .stop q' fut' calls sw =>
+    let sw := willSwitchPage q          -- the harness asks Iter.WillSwitchPage() before the call
+    match pscan fv true dests fut q with
+    | .row q' fut' calls => pagesScanLoop fv fuel fut' q' (acc ++ [(if sw then "PG(" ++ dQView q' ++ ")>" else "") ++ dCalls calls])
+    | .stop q' fut' calls =>
       some (acc ++ [(if sw then "PG(" ++ dQView q' ++ ")>" else "") ++ (if calls.isEmpty then "" else "!" ++ dCalls calls) ++ "$"], q', fut')
     | .crash => none
 
@@ -913,6 +914,18 @@ def step (_ : Unit) (ws : List String) : Unit × String :=
      | some fv, some (ps, []) => pagesModel api fv (ps.map (·.2.2))
      | _, _ => "bad-op")
   | "pages" :: api :: fv :: _prefetch :: rest =>
+    (match fv.toNat?, tPages.run rest with
+     | some fv, some (ps, []) =>
+       if ps.any (fun p => p.1 != fv) then "bad-op"
+       else if !(ps.all (fun p => wf p.1 p.2.1)) then "not-wf"
+       else if ps.any (fun p => encodeFrame p.1 p.2.1 != p.2.2) then "spec-encoder-mismatch"
+       else
+         let m := pagesModel api fv (ps.map (·.2.2))
+         match pagesSpec api (ps.map (·.2.1)) with
+         | none => "not-wf-pages"
+         | some s => if s == m then m else "MODEL-SPEC-MISMATCH model=" ++ m ++ " spec=" ++ s
+     | _, _ => "bad-op")
+  | "pagesn" :: api :: fv :: _prefetch :: rest =>
     (match fv.toNat?, tPages.run rest with
      | some fv, some (ps, []) =>
        if ps.any (fun p => p.1 != fv) then "bad-op"
